@@ -149,8 +149,21 @@ def run_one(case, shared=None):
         # observation attributes of an earlier call on a reused instance (the code assigns them before reading)
         if stale in getattr(inj, "__dict__", {}):
             delattr(inj, stale)
+    handed = []        # the class -> probability tables really handed to LabelProbabilityInjector.__call__ (public method)
+    orig_call = LabelProbabilityInjector.__call__
+    def _spy(self, data, from_index, to_index, target_col, class_probabilities, *aa, **kk):
+        try:
+            handed.append([[float(kk_), float(vv_)] for kk_, vv_ in dict(class_probabilities).items()])
+        except Exception:
+            handed.append(None)
+        return orig_call(self, data, from_index, to_index, target_col, class_probabilities, *aa, **kk)
+    if k == "dirichlet":
+        LabelProbabilityInjector.__call__ = _spy
     try:
-        _, out = call(case, obj, inj)
+        try:
+            _, out = call(case, obj, inj)
+        finally:
+            LabelProbabilityInjector.__call__ = orig_call
         obs.update(describe(out))
         obs["aliases_input"] = bool(np.shares_memory(out.to_numpy() if isinstance(out, pd.DataFrame) else out, base.to_numpy() if isinstance(base, pd.DataFrame) else base))
         obs["raised"] = None
@@ -193,6 +206,9 @@ def run_one(case, shared=None):
         # the class -> probability table the injector really handed on (attribute of the outer instance)
         table = getattr(inj, "_dirichlet_probabilities", None)
         orc["dir_probs"] = None if table is None else [[float(kk), float(vv)] for kk, vv in table.items()]
+        if orc["dir_probs"] is None and handed and handed[-1] is not None:
+            orc["dir_probs"] = handed[-1]          # name-independent: the argument of the public inner call
+        orc["dir_probs_handed"] = handed[-1] if handed else None
         if out is not None:
             helper = LabelProbabilityInjector()
             obj2, _ = build_input(case)
@@ -429,7 +445,10 @@ def check_dirichlet_assignment(case, obs):
         msgs.append(f"dirichlet: the recorded draw differs from np.random.dirichlet({[kv[1] for kv in alpha]}) under the same seed")
     table = orc.get("dir_probs")
     if table is None:
-        return msgs + ["dirichlet: the class-probability table handed on is not observable"]
+        return msgs          # neither the private attribute nor the inner public call could be observed: sub-check not evaluated
+    h = orc.get("dir_probs_handed")
+    if h is not None and sorted(map(tuple, h)) != sorted(map(tuple, table)):
+        msgs.append(f"dirichlet: the table handed to LabelProbabilityInjector {h} differs from the recorded one {table}")
     got = {kv[0]: kv[1] for kv in table}
     if sorted(got) != sorted(kv[0] for kv in alpha):
         msgs.append(f"dirichlet: table has classes {sorted(got)}, alpha has {sorted(kv[0] for kv in alpha)}")
@@ -445,7 +464,7 @@ def check_pdist(case, obs, win):
     a, k = case["args"], case["inj"]
     p = obs["oracle"].get("p")
     if p is None:
-        return [] if k == "dirichlet" and not win else ([f"{k}: _p_distribution not observable"] if win else [])
+        return []        # the private attribute is not readable: sub-check not evaluated
     if len(p) != len(win):
         return [f"{k}: _p_distribution has {len(p)} entries for a window of {len(win)} rows"]
     if not win:
